@@ -373,6 +373,23 @@ Proof.
     + apply DV_close. unfold DV in *. cbn. unfold close_handle. cbn. destruct (w_fin (c_w c)); auto; discriminate.
 Qed.
 
+Lemma Safe_finish_any res c : Safe c -> Safe (finish res c).
+Proof.
+  intros [Hc Hb]. unfold finish.
+  destruct (c_has_w c && negb (w_closed (c_w c))).
+  - split; [|exact Hb]. eapply Core_close_handle; try reflexivity. exact Hc.
+  - split; [eapply Core_ext; [|exact Hc]; repeat split|exact Hb].
+Qed.
+
+Lemma Safe_cancel_download c : Safe c -> Safe (cancel_download c).
+Proof.
+  intro Hs. unfold cancel_download. destruct (c_phase c); try exact Hs.
+  - apply Safe_finish_any, Safe_close. destruct Hs as [Hc _].
+    destruct (c_fut c); try exact Hc; (eapply Core_ext; [repeat split|exact Hc]).
+  - apply Safe_finish_any, Safe_close. destruct Hs as [Hc _].
+    eapply Core_close_handle; try reflexivity. exact Hc.
+Qed.
+
 Lemma Safe_force_close c : Safe c -> Safe (force_close c).
 Proof. intro Hs. eapply Safe_same; [| |exact Hs]; [repeat split|reflexivity]. Qed.
 
@@ -390,6 +407,7 @@ Proof.
     + eapply Safe_same; [| |apply Safe_drain; exact Hs]; [repeat split|reflexivity].
     + eapply DV_same; [| |apply DV_drain]; reflexivity.
   - destruct (c_open c); [apply Safe_force_close|]; exact Hs.
+  - apply Safe_drain, Safe_cancel_download. exact Hs.
 Qed.
 
 Lemma Safe_run : forall evs c, Safe c -> Safe (run H json_loads c evs).
@@ -503,6 +521,11 @@ Proof.
   unfold fire_timeouts. destruct (c_phase c); try reflexivity; destruct (_ <=? _); try reflexivity;
     try (destruct (c_fut c); try reflexivity); rewrite hash_finish; reflexivity.
 Qed.
+Lemma hash_cancel c : c_hash (cancel_download c) = c_hash c.
+Proof.
+  unfold cancel_download. destruct (c_phase c); try reflexivity; rewrite hash_finish; try reflexivity.
+  destruct (c_fut c); reflexivity.
+Qed.
 Lemma hash_step c e : c_hash (step H json_loads c e) = c_hash c.
 Proof.
   unfold step. destruct e; cbn [step_with].
@@ -514,6 +537,7 @@ Proof.
   - apply hash_drain.
   - rewrite hash_drain, hash_fire_timeouts. cbn. apply hash_drain.
   - destruct (c_open c); reflexivity.
+  - rewrite hash_drain. apply hash_cancel.
 Qed.
 Lemma hash_run : forall evs c, c_hash (run H json_loads c evs) = c_hash c.
 Proof.
@@ -589,7 +613,7 @@ Proof.
 Qed.
 
 Lemma proj_finish res c :
-  c_phase (finish res c) = PhDone res /\ c_open (finish res c) = c_open c /\ c_att (finish res c) = c_att c /\
+  c_phase (finish res c) = PhDone res /\ c_open (finish res c) = c_open c /\ c_att (finish res c) = false /\
   c_lost (finish res c) = c_lost c /\
   c_w (finish res c) = (if c_has_w c && negb (w_closed (c_w c)) then close_handle (c_w c) else c_w c).
 Proof. unfold finish. destruct (c_has_w c && negb (w_closed (c_w c))); repeat split. Qed.
@@ -651,7 +675,7 @@ Proof.
   { unfold run_callbacks. destruct (w_fin (c_w c)), (c_verified c); repeat split. }
   destruct W as (W1 & W2 & W3).
   destruct (proj_finish (DlClosed (c_received c)) (close (run_callbacks c))) as (P1 & P2 & P3 & P4 & P5).
-  rewrite P4. cbn [close c_lost]. rewrite W3, Hl. rewrite P1, P2, P3, P5. cbn [close c_open c_att c_has_w c_w andb].
+  rewrite P4. cbn [close c_lost]. rewrite W3, Hl. rewrite P1, P2, P3, P5. cbn [close c_open c_has_w c_w andb].
   rewrite W1, W2.
   destruct (c_has_w c); destruct (w_closed (c_w c)) eqn:Ew; cbn; rewrite ?Ew; repeat split; reflexivity.
 Qed.
@@ -735,6 +759,11 @@ Proof.
   unfold fire_timeouts. destruct (c_phase c); try reflexivity; destruct (_ <=? _); try reflexivity;
     try (destruct (c_fut c); try reflexivity); rewrite len_finish; reflexivity.
 Qed.
+Lemma len_cancel c : c_len (cancel_download c) = c_len c.
+Proof.
+  unfold cancel_download. destruct (c_phase c); try reflexivity; rewrite len_finish; try reflexivity.
+  destruct (c_fut c); reflexivity.
+Qed.
 Lemma len_step c e L : c_len c = Some L -> c_len (step H json_loads c e) = Some L.
 Proof.
   intro Hl. unfold step. destruct e; cbn [step_with].
@@ -745,6 +774,7 @@ Proof.
   - rewrite len_drain. exact Hl.
   - rewrite len_drain, len_fire. cbn. rewrite len_drain. exact Hl.
   - destruct (c_open c); exact Hl.
+  - rewrite len_drain, len_cancel. exact Hl.
 Qed.
 
 (* whatever happens to the download afterwards - failure, timeout, connection loss - the announced length stays *)
@@ -775,6 +805,91 @@ Proof.
   intros Ho Hne Hp Hb.
   apply (unrequested_blob_dropped (start_download h2 known c) data r n (Some h1) l); try reflexivity; try assumption.
   cbn. congruence.
+Qed.
+
+(* ---- fix a1a028a: once a download has ended, nothing is attached to the protocol any more, and whatever then arrives
+   on the idle kept connection closes it *)
+Definition DoneIdle (c : client) : Prop := forall res, c_phase c = PhDone res -> c_att c = false.
+
+Lemma idle_data_received c d : c_att c = false ->
+  data_received H json_loads c d = ((if c_open c then close c else c), false).
+Proof.
+  intro Ha. unfold data_received. rewrite Ha. destruct (c_open c); cbn; reflexivity.
+Qed.
+
+Lemma att_finish res c : c_att (finish res c) = false /\ c_phase (finish res c) = PhDone res.
+Proof. destruct (proj_finish res c) as (A & _ & B & _). auto. Qed.
+
+Lemma DI_finish res c : DoneIdle (finish res c).
+Proof. intros r _. apply att_finish. Qed.
+Lemma DI_run_callbacks c : DoneIdle c -> DoneIdle (run_callbacks c).
+Proof. unfold DoneIdle, run_callbacks. destruct (w_fin _), (c_verified c); auto. Qed.
+Lemma DI_close c : DoneIdle (close c).
+Proof. intros r _. reflexivity. Qed.
+Lemma DI_co_await_fin c : DoneIdle c -> DoneIdle (co_await_fin c).
+Proof. intro Hd. unfold co_await_fin. destruct (w_fin (c_w c)); try exact Hd; apply DI_finish. Qed.
+Lemma DI_co_step c : DoneIdle c -> DoneIdle (co_step c).
+Proof.
+  intro Hd. unfold co_step. destruct (c_phase c) eqn:Ep; try exact Hd.
+  - destruct (c_fut c); try exact Hd; try apply DI_finish.
+    destruct (c_closed_ev c); [apply DI_finish|].
+    match goal with |- context[if ?b then _ else _] => destruct b end; [|apply DI_finish].
+    apply DI_co_await_fin. intros rr Hr. cbn in Hr. discriminate.
+  - apply DI_co_await_fin. exact Hd.
+Qed.
+Lemma DI_drain c : DoneIdle c -> DoneIdle (drain c).
+Proof.
+  intro Hd. unfold drain. destruct (c_lost _).
+  - apply DI_co_step, DI_run_callbacks, DI_close.
+  - apply DI_co_step, DI_run_callbacks, Hd.
+Qed.
+Lemma DI_fire c : DoneIdle c -> DoneIdle (fire_timeouts c).
+Proof.
+  intro Hd. unfold fire_timeouts. destruct (c_phase c) eqn:Ep; try exact Hd; destruct (_ <=? _); try exact Hd;
+    try (destruct (c_fut c); try exact Hd); apply DI_finish.
+Qed.
+Lemma DI_cancel c : DoneIdle c -> DoneIdle (cancel_download c).
+Proof. intro Hd. unfold cancel_download. destruct (c_phase c); try exact Hd; apply DI_finish. Qed.
+Lemma DI_same c c' : c_phase c' = c_phase c -> c_att c' = c_att c -> DoneIdle c -> DoneIdle c'.
+Proof. unfold DoneIdle. intros -> ->. auto. Qed.
+
+Lemma DI_data c d : DoneIdle c ->
+  DoneIdle (let '(c1, raised) := data_received H json_loads c d in if raised then force_close c1 else c1).
+Proof.
+  intro Hd. pose proof (frame_data_received c d) as (Fp & _).
+  assert (Ha : forall res0, c_phase c = PhDone res0 -> c_att c = false) by exact Hd.
+  destruct (c_phase c) as [|dl|dl|res0] eqn:Ep.
+  1-3: destruct (data_received H json_loads c d) as [c1 raised]; cbn [fst] in Fp; unfold DoneIdle; intros rr Hr; exfalso;
+       destruct raised; cbn in Hr; congruence.
+  rewrite (idle_data_received c d (Ha res0 eq_refl)). destruct (c_open c); [apply DI_close|].
+  intros rr Hr. apply (Ha res0). reflexivity.
+Qed.
+
+Lemma DI_step c e : DoneIdle c -> DoneIdle (step H json_loads c e).
+Proof.
+  intro Hd. unfold step. destruct e; cbn [step_with].
+  - destruct (c_open c); [apply DI_data; exact Hd|exact Hd].
+  - apply DI_data. exact Hd.
+  - apply DI_drain. exact Hd.
+  - apply DI_drain, DI_fire. eapply DI_same; [| |apply DI_drain; exact Hd]; reflexivity.
+  - destruct (c_open c); [|exact Hd]. eapply DI_same; [| |exact Hd]; reflexivity.
+  - apply DI_drain, DI_cancel. exact Hd.
+Qed.
+
+Lemma DI_run : forall evs c, DoneIdle c -> DoneIdle (run H json_loads c evs).
+Proof. induction evs as [|e evs IH]; intros c Hd; [exact Hd|]. unfold run in *. cbn [fold_left]. apply IH, DI_step, Hd. Qed.
+
+(* for every history of a request: once the download has ended (ok, closed, cancelled) and the connection is still open,
+   the next segment the peer sends - excess or unsolicited bytes - closes it *)
+Theorem idle_connection_closes_on_data c0 hash known evs res d :
+  let c := run H json_loads (request hash known c0) evs in
+  c_phase c = PhDone res -> c_open c = true ->
+  c_open (step H json_loads c (EvData d)) = false.
+Proof.
+  intros c Hp Ho.
+  assert (Hd : DoneIdle c).
+  { apply DI_run. unfold request. destruct (c_open c0); intros r Hr; cbn in Hr; discriminate. }
+  unfold step. cbn [step_with]. rewrite Ho. rewrite (idle_data_received c d (Hd _ Hp)), Ho. reflexivity.
 Qed.
 
 End Client.
